@@ -136,6 +136,7 @@ pub fn plan(prop: &str, tier: Tier, cfg_b: bool) -> Option<Plan> {
             // only strategies that must not change the run (turned into IgnoreInterruptions below)
             r.intr_pct = 12;
             exh_access = true;
+            wide_every = if q { 3000 } else { 15_000 };
         }
         "C07" => {
             r.fail_pct = 92;
